@@ -87,6 +87,28 @@ CHECKS = {
             "The 20+4+4 base residue entries are the specification; ambiguity codes follow the FASTA convention written out "
             "in the check.",
             "DESIGN.md section 4 C18"),
+    "C03": ("Hypothesis search over compounds/densities/wavelengths against a plain-Python reference of the documented "
+            "equations + exhaustive sweeps of the 363 atoms with data and of every energy-table interval",
+            "All seven outputs of neutron_scattering (and neutron_sld, element/isotope routes) are compared (rel 1e-10 with "
+            "operand-scale floors) with an independent calculator that reads the energy-dependent tables itself "
+            "(interpolation, end clamping, natural Lu mix); string/dict compounds, density and natural_density, scalar/list/"
+            "1-D/2-D wavelengths and energy= are generated; compounds with an atom without data must give (None, None, None).",
+            "Per-atom fields (b_c, cross sections, masses) are taken as served (C06/C07 tie them to the tables); the "
+            "interpolation axis (wavelength) is detected once and then required everywhere.",
+            "DESIGN.md section 4 C03"),
+    "C04": ("Hypothesis-generated metamorphic relations: density scaling, count scaling, regrouping/reordering, "
+            "energy vs wavelength, vector vs scalar, unit-conversion identities, non-negativity",
+            "For each generated base compound six derived variants are evaluated and the documented relation between the "
+            "results is checked; conversion triples (E, lambda, v) are checked against the physical constants and anchors.",
+            "Relations only; absolute values are C03's business.",
+            "DESIGN.md section 4 C04"),
+    "C17": ("Hypothesis differential test: neutron_composite_sld(materials)(weights, density) vs neutron_sld of the "
+            "weighted sum",
+            "Generated lists of 1-6 materials (repeats, energy-dependent isotopes), weight vectors with zeros and all-zero, "
+            "densities including 0, scalar/length-1/length-n wavelengths; all three outputs and their shapes must agree "
+            "with the direct calculation on the summed composition.",
+            "neutron_sld is the reference (decided by C03).",
+            "DESIGN.md section 4 C17"),
 }
 
 PENDING = {}
